@@ -104,16 +104,16 @@ theorem step_spec (fin : Nat → Bool) {s : SemState} {op : SemOp} {o : StepOut}
           cases hr : po.res with
           | pending =>
             rw [hr] at c
-            simp only [acquiredBy, permitsOf, reduceCtorEq, if_false] at c ⊢
+            simp only [acquiredBy, reduceCtorEq, if_false] at c ⊢
             omega
           | ready ok =>
             rw [hr] at c
             cases ok with
             | true =>
-              simp only [acquiredBy, hw, Option.map_some, permitsOf, if_true] at c ⊢
+              simp only [acquiredBy, hw, Option.map_some, if_true] at c ⊢
               omega
             | false =>
-              simp only [acquiredBy, permitsOf, PollRes.ready.injEq, Bool.false_eq_true, if_false] at c ⊢
+              simp only [acquiredBy, PollRes.ready.injEq, Bool.false_eq_true, if_false] at c ⊢
               omega
   | dropAcquire task wid =>
     simp only [step] at h
@@ -155,8 +155,8 @@ theorem step_spec (fin : Nat → Bool) {s : SemState} {op : SemOp} {o : StepOut}
           have e : wpend w = w.n := by simp [wpend, hg]
           simp only [releasedBy, permitsOf, dropW_avail] at p2 ⊢
           cases hn : w.n with
-          | zero => simp only [acquiredBy, permitsOf]; omega
-          | succ k => simp only [acquiredBy, permitsOf]; omega
+          | zero => simp only [acquiredBy]; omega
+          | succ k => simp only [acquiredBy]; omega
         · rw [if_neg hg] at h
           simp only [Except.ok.injEq] at h
           subst h
